@@ -154,8 +154,12 @@ def argument_context(ctx):
         ok = len(c.args) >= 3 and is_name(c.args[0], m.target_param) and is_name(c.args[2], m.scope_param)
         ctx.ob(ok, u, 'argument is evaluated against the original target: %s' % norm(c), node=c)
     # the per-step argument evaluation dominates every primitive of that iteration
+    def is_step_arg(e):
+        # the recorded argument: the argument variable, or ops[i+1] read in place
+        return is_name(e, m.arg_var) or (m.arg_fetch_stmt is not None and any(e is x for x in ast.walk(m.arg_fetch_stmt.value))
+                                         and isinstance(e, ast.Subscript) and is_name(e.value, m.ops_var))
     step_av = [c for c in av if cfg.node_containing(c) in cfg.loop_body(m.loop_node)
-               and len(c.args) > 1 and is_name(c.args[1], m.arg_var)]
+               and len(c.args) > 1 and is_step_arg(c.args[1])]
     ctx.ob(len(step_av) == 1, u, 'each step evaluates its argument once with arg_val(target, arg, scope)',
            'found %d such calls in the loop' % len(step_av))
     if step_av:
